@@ -507,3 +507,74 @@ pub fn block_first_symbol(p: (u64, u64, u64, u64), sbn: u64) -> u64 {
         p.2 * p.0 + (sbn - p.2) * p.1
     }
 }
+
+/// Rebuild the encoder input from a decoded packet (round trip: encode(&to_build(&d)) == original
+/// for packets made of the extensions this module knows).
+pub fn to_build(d: &Decoded) -> Build {
+    let mut extra = Vec::new();
+    for e in &d.exts {
+        if !matches!(e.het, HET_FDT | HET_CENC | HET_TIME | HET_FTI) {
+            extra.push(e.bytes.clone());
+        }
+    }
+    Build {
+        cci: d.cci,
+        cci_words: d.c + 1,
+        tsi: d.tsi,
+        tsi_len: 4 * d.s as usize + 2 * d.h as usize,
+        toi: d.toi,
+        toi_len: 4 * d.o as usize + 2 * d.h as usize,
+        cp: d.cp,
+        close_session: d.close_session,
+        close_object: d.close_object,
+        fdt: d.fdt,
+        cenc: d.cenc,
+        sct: d.sct,
+        fti: d.fti.clone(),
+        extra_exts: extra,
+        sbn: d.sbn,
+        esi: d.esi,
+        sbl: d.sbl.unwrap_or(0),
+        payload: d.payload.clone(),
+    }
+}
+
+/// Packetise an FDT instance (XML bytes) with the No-Code scheme: one block, symbols of `e` bytes.
+pub fn packetise_fdt(xml: &[u8], tsi: u64, instance_id: u32, e: usize, sct: Option<(u32, u32)>, cenc: Option<u8>) -> Vec<Vec<u8>> {
+    let e = e.max(1);
+    let n = (xml.len() + e - 1) / e;
+    let (tsi_len, toi_len) = field_lens(tsi, 0);
+    let mut out = Vec::new();
+    for i in 0..n.max(1) {
+        let lo = (i * e).min(xml.len());
+        let hi = ((i + 1) * e).min(xml.len());
+        out.push(encode(&Build {
+            cci: 0,
+            cci_words: 1,
+            tsi,
+            tsi_len,
+            toi: 0,
+            toi_len,
+            cp: FEC_NOCODE,
+            fdt: Some((2, instance_id & 0xFFFFF)),
+            cenc,
+            sct,
+            fti: Some(Fti {
+                fec: FEC_NOCODE,
+                transfer_length: xml.len() as u64,
+                e: e as u32,
+                b: Some(n.max(1) as u32),
+                max_n: None,
+                instance_id: None,
+                z: None,
+                n: None,
+                al: None,
+            }),
+            sbn: 0,
+            esi: i as u32,
+            payload: xml[lo..hi].to_vec(),
+            ..Default::default()
+        }));
+    }
+    out
+}
